@@ -10,20 +10,24 @@ EXTENDS MainChainGas, Json, SequencesExt
 
 CONSTANT TraceFile
 
-VARIABLES l
-tvars == <<notary, dep, gas, neo, wfee, cfee, cands, irN, ev, l>>
+VARIABLES l, rd
+tvars == <<notary, dep, gas, neo, wfee, cfee, cands, irN, ballots, cur, ev, l, rd>>
 
 Trace == ndJsonDeserialize(TraceFile)
 
 M_Unit  == <<0, 100, 0>>
 M_Users == {"u1", "u2"}
 M_Cands == {"c1", "c2"}
-M_KeyU  == {"k1", "k2", "k3"}
+M_KeyU  == {"k1", "k2", "k3", "k4"}
+M_KeySeq == <<"k1", "k2", "k3", "k4">>
+M_Ids   == {"i1", "i2"}
+M_FeeIds == {"j1"}
+M_AlphaIds == {"a1"}
 M_IRSeq == <<"r1", "r2", "r3", "r4", "r5", "r6", "r7">>
 M_Empty == {}
 
 MintOf(r) == [a \in Acct |-> r.mint[a]]
-EvOf(r) == Event(r.act, ToSet(r.S), r.u, r.v, r.amt, r.w, r.k, r.id, MintOf(r), r.res, r.ret, r.ntf)
+EvOf(r) == Event(r.act, ToSet(r.S), r.u, r.v, r.amt, r.w, r.k, r.id, r.gap, MintOf(r), r.res, r.ret, r.ntf)
 
 Flag(ok, prop, pred, r, tags) ==
   IF ok THEN TRUE
@@ -39,7 +43,8 @@ Judge(r) ==
       t == Tags(r)
   IN  /\ Flag(C19_Deposit(e), "C19", "Deposit", r, t)
       /\ Flag(C19_WithdrawFee(e), "C19", "WithdrawFee", r, t)
-      /\ Flag(C19_ChequePays(e), "C19", "ChequePays", r, t)
+      /\ Flag(C19_ChequePays(rd, e), "C19", "ChequePays", r, t)
+      /\ Flag(C19_ChequeAccepted(e), "C19", "ChequeAccepted", r, t)
       /\ Flag(C19_CandidateFee(e), "C19", "CandidateFee", r, t)
       /\ Flag(C19_Conservation(e), "C19", "Conservation", r, t)
       /\ Flag(C19_EmitOnlyOwnNode(e), "C19", "EmitOnlyOwnNode", r, t)
@@ -54,8 +59,9 @@ TraceInit ==
   /\ l = 0
   /\ notary = TRUE /\ dep = [skeys |-> {}, nc |-> 0, aidx |-> 0]
   /\ gas = [a \in Acct |-> Z] /\ neo = [a \in NeoAcct |-> 0]
-  /\ wfee = Z /\ cfee = Z /\ cands = {} /\ irN = 0
-  /\ ev = Inv0("init", {}, Nil, Nil, Z, 0, Nil, Nil, NoMint)
+  /\ wfee = Z /\ cfee = Z /\ cands = {} /\ irN = 0 /\ ballots = <<>> /\ cur = 0
+  /\ ev = InvG("init", {}, Nil, Nil, Z, 0, Nil, Nil, 0, NoMint)
+  /\ rd = RdInit
 
 TraceNext ==
   /\ l < Len(Trace)
@@ -67,10 +73,11 @@ TraceNext ==
          /\ wfee' = o.wfee /\ cfee' = o.cfee
          /\ cands' = ToSet(o.cands)
          /\ irN' = o.irN
+         /\ ballots' = o.bl /\ cur' = r.h
          /\ ev' = EvOf(r)
          /\ IF r.act = "reset"
-            THEN notary' = r.notary /\ dep' = [skeys |-> ToSet(r.skeys), nc |-> r.nc, aidx |-> r.idx]
-            ELSE notary' = o.notary /\ UNCHANGED dep /\ Judge(r)
+            THEN notary' = r.notary /\ dep' = [skeys |-> ToSet(r.skeys), nc |-> r.nc, aidx |-> r.idx] /\ rd' = RdInit
+            ELSE notary' = o.notary /\ UNCHANGED dep /\ rd' = RdNext(rd, ev') /\ Judge(r)
          /\ IF l' = Len(Trace) THEN PrintT("DONE|" \o ToString(l')) ELSE TRUE
 
 TraceSpec == TraceInit /\ [][TraceNext]_tvars
